@@ -79,6 +79,32 @@ func genLayout(t *rapid.T) *layoutSpec {
 	return l
 }
 
+// nodeLacksCondKey: some node holds series of the queried metric, none of which carries one of the
+// tag keys the condition names (the node's metadata then does not know the key).
+func (l *layoutSpec) nodeLacksCondKey(d *dataset, q *querySpec) bool {
+	for ni := range l.Nodes {
+		carried := map[string]bool{}
+		any := false
+		for si, sd := range d.Series {
+			if sd.Metric == q.Metric && l.nodeOf[si] == ni {
+				any = true
+				for k := range sd.Tags {
+					carried[k] = true
+				}
+			}
+		}
+		if !any {
+			continue
+		}
+		for _, k := range q.Cond.keys() {
+			if !carried[k] {
+				return true
+			}
+		}
+	}
+	return false
+}
+
 func (l *layoutSpec) layoutMap(only int) map[string][]models.ShardID {
 	m := map[string][]models.ShardID{}
 	for i, shards := range l.Nodes {
@@ -524,6 +550,10 @@ func (e *env) runLayout(q *querySpec, sql string, m *modelOut, ref node.Result, 
 	names := make([]string, nLeaves)
 	for i := range names {
 		names[i] = leafName(i)
+	}
+	if q.Cond.hasOr() && ev.Known(sigUnknownTagKey) && l.nodeLacksCondKey(e.d, q) {
+		ev.Class(e.group, "excluded_known", 1)
+		return
 	}
 	classes := append([]string{}, qClasses...)
 	classes = append(classes, fmt.Sprintf("layout:shards=%d", l.Shards), fmt.Sprintf("layout:leaves=%d", nLeaves))
